@@ -103,7 +103,37 @@ type CatTagged struct {
 	Inner  map[string]CatTaggedInner `config:"inner"`
 }
 
+// named non-container types with Validate methods (pointer and value receiver) held in slices, maps and arrays: an
+// element the configuration does not mention is validated like one it sets
+type CatPort int
+
+func (p *CatPort) Validate() error {
+	if *p < 0 || *p > 65535 {
+		return errors.New("port out of range")
+	}
+	return nil
+}
+
+type CatLevel int
+
+func (l CatLevel) Validate() error {
+	if l > 9 {
+		return errors.New("level above 9")
+	}
+	return nil
+}
+
+type CatPorts struct {
+	Name   string             `config:"name"`
+	Ports  []CatPort          `config:"ports"`
+	ByName map[string]CatPort `config:"byname"`
+	Fixed  [2]CatPort         `config:"fixed"`
+	Levels []CatLevel         `config:"levels"`
+	One    CatPort            `config:"one"`
+}
+
 var catalog = map[string]reflect.Type{
+	"Ports":        reflect.TypeOf(CatPorts{}),
 	"Tagged":       reflect.TypeOf(CatTagged{}),
 	"Range":        reflect.TypeOf(CatRange{}),
 	"Ptr":          reflect.TypeOf(CatPtr{}),
